@@ -210,7 +210,7 @@ def show_item(it):
             return 'done cb%d -> %s' % (it[1], bool(it[3]))
         return 'done cb%d raises %s(%d)' % (it[1], EXC_NAMES[min(it[3], 6)], it[4])
     if k == 'api':
-        return 'api %s t%d m%d e%d' % (['trigger', 'may', 'dispatch', 'remove_model', 'add_model'][it[1]], it[2], it[3], it[4])
+        return 'api %s t%d m%d e%d' % (['trigger', 'may', 'dispatch', 'remove_model', 'add_model', 'to'][it[1]], it[2], it[3], it[4])
     if k == 'ret':
         return 'ret t%d %s' % (it[1], bool(it[2]))
     if k == 'raised':
